@@ -108,4 +108,8 @@ theorem C08_fifo_lookahead_attained (c : Cfg) (hp : ∀ i, c.preFail i = false) 
   refine ⟨_, h1, ?_⟩
   simp [fillState, handed]; omega
 
+/-- the hand-off queue does fill up to `capacity + 1` entries, for every capacity -/
+theorem C08_fifo_queue_bound_attained (c : Cfg) (hp : ∀ i, c.preFail i = false) (hn : c.cap + 2 ≤ c.n) :
+    ∃ s, Reachable c s ∧ s.queue.length = c.cap + 1 :=
+  ⟨fillState (c.cap + 1), fill_reachable c hp (c.cap + 1) (Nat.le_refl _) (by omega), by simp [fillState]⟩
 end Fifo
